@@ -87,3 +87,13 @@ def ps3_question_into_poison(u, key, text):
         raise LostAnchor('%s: PS3 a `?` is left that is not a statement-level call' % key)
     u.rules['PS3-question-into-poison'] += n
     return new
+
+
+def ps4_map_err_into(u, key, text):
+    """PS4  X.map_err(|e| e.into())   ->   match X { Ok(ps_v) => Ok(ps_v), Err(ps_e) => Err(core::convert::From::from(ps_e)) }
+    for a local X (std: Result::map_err applies the closure to a contained Err and leaves an Ok untouched; `e.into()` is `From::from(e)`
+    by the blanket impl of Into).  Written out because the verifier knows nothing about the result of an unannotated closure."""
+    pat = re.compile(r'\b(\w+)\.map_err\(\|e\| e\.into\(\)\)')
+    new, n = pat.subn(lambda m: 'match %s { Ok(ps_v) => Ok(ps_v), Err(ps_e) => Err(core::convert::From::from(ps_e)) }' % m.group(1), text)
+    u.rules['PS4-map-err-into'] += n
+    return new
